@@ -266,3 +266,151 @@ def c09_meta(ctx, dim):
     keep = [k for k in src.metadata() if k not in ("dimensions", "origin")]
     ctx.ensure("everything else is the source image's", all(meta[k] is src.metadata()[k] or meta[k] == src.metadata()[k] for k in keep) and set(meta) == set(src.metadata()))
     ctx.ensure("source image metadata untouched", and_(eq(list(src.dimensions), list(ds)), eq(list(src.origin), list(os_))))
+
+
+# ---------------------------------------------------------------------------------------------------------------------------------
+# fit-based construction (AffineCorrection / CoordinateTransformation from point pairs)
+
+FIT_STUBS = dict(STUBS, **{"optimize.minimize": lambda ctx: stubs.minimize_stub(ctx, monotone=False)})
+FIT_FUNCS = FUNCS + ["darsia.corrections.shape.affine:AffineTransformation.fit", "darsia.corrections.shape.affine:AffineCorrection.__init__"]
+FIT_SYSTEMS = {2: (((3, 4), [0.5, 0.25], [1.0, 2.0]), ((2, 5), [0.5, 0.25], [1.25, 2.5])),
+               3: (((2, 2, 3), [0.5, 0.25, 2.0], [1.0, 2.0, 3.0]), ((3, 2, 2), [0.5, 0.25, 2.0], [0.5, 2.25, 5.0]))}
+
+
+def _system(shape, h, org):
+    dim = len(shape)
+    return darsia.Image(np.zeros(shape), space_dim=dim, scalar=True, dimensions=[shape[k] * h[k] for k in range(dim)], origin=list(org)).coordinatesystem
+
+
+def _centre_coordinates(V, shape, h, org):
+    """physical coordinates of the centres of voxels V (rows), from the C01 specification (not through the code under contract)"""
+    from contracts.C01_coordinates import SPEC
+    dim = len(shape)
+    out = np.empty(V.shape, dtype=object)
+    for r in range(V.shape[0]):
+        for m, (ax, sg) in enumerate(SPEC[dim]):
+            out[r, ax] = org[ax] + sg * (V[r, m] + (1 / 2 if False else 0.5)) * h[m]
+    return out
+
+
+def _fit_cases(tier):
+    out = []
+    for dim in (2, 3):
+        for isometry in (False, True):
+            for kind in (("voxel", "voxelcenter") if isometry else ("voxel", "voxelcenter", "coordinate")):
+                for precond in (True, False):
+                    for same in (False, True):
+                        if dim == 3 and not (kind == "voxelcenter" or (kind == "coordinate" and precond)):
+                            continue
+                        out.append(dict(dim=dim, isometry=isometry, kind=kind, precond=precond, same=same))
+    return out
+
+
+@ob("C09.fit", cases=_fit_cases, mods=MODS, funcs=FIT_FUNCS, stubs=FIT_STUBS, samples=(1, 2), budget={"paths": 8, "timeout_ms": 20000, "wall_s": 200},
+    cite="A transformation-based correction ... whether the map is expressed in physical coordinates, voxels or voxel centres ... source and "
+         "destination systems of different shape and voxel size",
+    note="construction from point pairs: the least-squares problem handed to the optimiser is posed on the source points in the SOURCE system and the "
+         "destination points in the DESTINATION system (physical voxel-centre coordinates when an isometry is requested), and the resulting map is the "
+         "optimiser's map composed with the preconditioning shift; the optimiser itself is an assumed dependency (any result vector)")
+def c09_fit(ctx, dim, isometry, kind, precond, same):
+    ctx.minimize_calls = []
+    (ss, hs, os_), (sd, hd, od) = FIT_SYSTEMS[dim]
+    if same:
+        sd, hd, od = ss, hs, os_
+    cs_s, cs_d = _system(ss, hs, os_), _system(sd, hd, od)
+    n = dim + 1
+    mk = POINT_KINDS[kind][0]
+    if kind == "coordinate":
+        P = np.array([[ctx.real(f"p{r}_{m}", sample=(-3.0, 3.0)) for m in range(dim)] for r in range(n)])
+        Q = np.array([[ctx.real(f"q{r}_{m}", sample=(-3.0, 3.0)) for m in range(dim)] for r in range(n)])
+        src_pts, dst_pts = mk(P), mk(Q)
+        P1, Q1 = P, Q
+    else:
+        V = np.array([[ctx.int(f"v{r}_{m}", sample=(-2, 6)) for m in range(dim)] for r in range(n)])
+        W = np.array([[ctx.int(f"w{r}_{m}", sample=(-2, 6)) for m in range(dim)] for r in range(n)])
+        src_pts, dst_pts = (mk(V), mk(W)) if kind == "voxel" else (mk(V + 0.5), mk(W + 0.5))
+        if isometry:
+            P1, Q1 = _centre_coordinates(V, ss, hs, os_), _centre_coordinates(W, sd, hd, od)
+        else:
+            P1, Q1 = (V, W) if kind == "voxel" else (V + 0.5, W + 0.5)
+    opts = {"isometry": isometry, "preconditioning": precond, "tol": 1e-9, "maxiter": 200}
+    import contextlib, io
+    with stubs.record_minimize(ctx), contextlib.redirect_stdout(io.StringIO()):
+        C = darsia.AffineCorrection(cs_s, cs_d, src_pts, dst_pts, dict(opts))
+    ctx.ensure("the optimiser is called exactly once", len(ctx.minimize_calls) == 1)
+    call = ctx.minimize_calls[0]
+    x = np.asarray(call["x"])
+    nrot = 1 if dim == 2 else 3
+    ctx.ensure("parameter vector length: translation (+ scaling unless isometry) + rotation", x.size == dim + nrot + (0 if isometry else 1))
+    if not isometry:
+        ctx.assume(x[dim] > 0)          # a fitted scaling factor of zero (or a reflection) is not an affine map in the sense of the property
+    pre = (sum(Q1[r] for r in range(n)) - sum(P1[r] for r in range(n))) / n if precond else np.zeros(dim)
+    Tx = darsia.AffineTransformation(dim)           # the optimiser's map, decoded as C09.action / C09.rotation2d specify
+    Tx.isometry = isometry
+    Tx.set_parameters_as_vector(np.array(list(x)))
+    Psh = np.array([[P1[r, m] + pre[m] for m in range(dim)] for r in range(n)])
+    mapped = Tx.call_array(Psh)
+    want_obj = sum((Q1[r, m] - mapped[r, m]) * (Q1[r, m] - mapped[r, m]) for r in range(n) for m in range(dim))
+    T = C.transformation
+    Z = rows(ctx, "z", 2, dim)
+    Zsh = np.array([[Z[r, m] + pre[m] for m in range(dim)] for r in range(2)])
+    ctx.ensure("fitted map == optimiser's map composed with the preconditioning shift", eq(T.call_array(Z), Tx.call_array(Zsh)))
+    if dim == 2:        # (3-D: C09.inverse proves this for every parameter vector; the three-angle identity is too slow to repeat here)
+        ctx.ensure("fitted inverse inverts the fitted map", eq(T.inverse_array(T.call_array(Z)), Z))
+    # (evaluating the recorded objective re-parameterises the fitted object, so this comes last)
+    ctx.ensure("objective(x) == sum |dst - T_x(src + shift)|^2 with src in the source system and dst in the destination system", eq(call["fun"](np.array(list(x))), want_obj))
+    unit = darsia.Coordinate if (isometry or kind == "coordinate") else POINT_KINDS[kind][1]
+    ctx.ensure("the map is typed in the units it was fitted in", T.input_dtype is unit and T.output_dtype is unit)
+    ctx.ensure("the correction keeps both coordinate systems", C.coordinatesystem_src is cs_s and C.coordinatesystem_dst is cs_d)
+
+
+def _fit_real_cases(tier):
+    out = []
+    for isometry in (False, True):
+        for kind in (("voxel", "voxelcenter") if isometry else ("voxel", "voxelcenter", "coordinate")):
+            for system in ("same", "origin", "shape"):
+                out.append(dict(dim=2, isometry=isometry, kind=kind, system=system))
+    out.append(dict(dim=3, isometry=True, kind="voxelcenter", system="origin"))
+    out.append(dict(dim=3, isometry=False, kind="coordinate", system="shape"))
+    return out
+
+
+@ob("C09.fit_real", kind="B", cases=_fit_real_cases, funcs=FIT_FUNCS, samples=(1, 2), tol=0,
+    cite="A transformation-based correction whose map is the identity, a whole-voxel translation ... returns exactly the input array, its zero-filled "
+         "shift ... and a coordinate transformation additionally labels the result with the destination coordinate system",
+    note="bounded: the real Powell fit on exact voxel-centre point pairs (identity and whole-voxel shifts), source and destination systems equal / other origin / other shape")
+def c09_fit_real(ctx, dim, isometry, kind, system):
+    import contextlib, io, warnings
+    rng = np.random.default_rng(ctx.rng.randrange(1 << 30))
+    shape = (5, 6) if dim == 2 else (3, 4, 3)
+    h = 0.5
+    arr = rng.integers(1, 255, size=shape).astype(float)
+    src = darsia.Image(arr.copy(), space_dim=dim, scalar=True, dimensions=[n * h for n in shape], origin=[1.0, 2.0, 3.0][:dim], name="src")
+    dshape = shape if system != "shape" else tuple(n + 2 - k for k, n in enumerate(shape))
+    dorg = [1.0, 2.0, 3.0][:dim] if system == "same" else [1.0 + 2 * h, 2.0 - h, 3.0 + h][:dim]
+    dst = darsia.Image(np.zeros(dshape), space_dim=dim, scalar=True, dimensions=[n * h for n in dshape], origin=dorg, name="dst")
+    cs_s, cs_d = src.coordinatesystem, dst.coordinatesystem
+    shifts = [(0,) * dim, (1, -1, 0)[:dim], (-2, 0, 1)[:dim], tuple(n + 1 for n in shape)]
+    base = np.array([[0] * dim, [shape[0] - 1] + [0] * (dim - 1), [0, shape[1] - 1] + [0] * (dim - 2), [2, 1] + [1] * (dim - 2)] + ([[1, 2, 2], [0, 0, 2]] if dim == 3 else []))
+    for sh in shifts:
+        V, Wv = base, base + np.array(sh)
+        if kind == "voxel":
+            ps, pd = darsia.make_voxel(V), darsia.make_voxel(Wv)
+        elif kind == "voxelcenter":
+            ps, pd = darsia.make_voxel_center(V + 0.5), darsia.make_voxel_center(Wv + 0.5)
+        else:
+            ps, pd = darsia.make_coordinate(cs_s.coordinate(V + 0.5)), darsia.make_coordinate(cs_d.coordinate(Wv + 0.5))
+        with contextlib.redirect_stdout(io.StringIO()), warnings.catch_warnings():
+            warnings.simplefilter("ignore")
+            CT = darsia.CoordinateTransformation(cs_s, cs_d, ps, pd, fit_options={"tol": 1e-10, "maxiter": 20000, "isometry": isometry})
+            res = CT(src)
+        want = np.zeros(dshape)
+        for v in np.ndindex(*dshape):
+            s_ = tuple(v[k] - sh[k] for k in range(dim))
+            if all(0 <= s_[k] < shape[k] for k in range(dim)):
+                want[v] = arr[s_]
+        ctx.tick()
+        ctx.ensure(f"shift {sh}: result is exactly the zero-filled shift of the input in the destination canvas", res.img.shape == want.shape and bool(np.array_equal(res.img, want)))
+        ctx.ensure(f"shift {sh}: result carries the destination coordinate system", bool(np.allclose(res.origin, dst.origin)) and bool(np.allclose(res.dimensions, dst.dimensions))
+                   and res.img.shape[:dim] == dshape)
+        ctx.ensure(f"shift {sh}: input image untouched", bool(np.array_equal(src.img, arr)))
